@@ -28,7 +28,7 @@ RULE = ('a case is one header (five projections x reference points x pixel scale
         'CRVAL) plus a seeded catalogue (1..200 sources; strata: interior, within 3 px of each of the four edges, '
         'inside the last half pixel of each edge, the one-pixel ring outside (generated, not judged), 1.5..60 px off '
         'the image, the far hemisphere; major FWHM 1..6 beams, minor FWHM >= 3 px, all PAs incl. cardinal values, both '
-        'signs); an evaluation is one judged source, one additivity comparison, one mask image, one output file or one '
+        'signs; plus catalogues of 2..40 sources that all share one float-identical (a, b, pa) - the beam, an elongated shape, or two shapes mixed - on fields reaching 0.4-0.5 deg from reference points at |dec| 80-85, judged per source, as a whole against the summed renderings, for additivity and for catalogue order); mask mode through make_residual and the AeRes command line with sigma in {2.5, 4, 10, 25} and frac unset; an evaluation is one judged source, one whole-model comparison, one additivity comparison, one mask image, one output file or one '
         'closed-loop source; non-trivial = source centred on the image with a non-zero reference model; distinct = '
         'distinct (header, source) tuples, cases with equal hash counted once')
 ASSUMPTIONS = ['oracle: aegmon/refs/render.py (Gaussian in the tangent plane of the source, sky positions of the pixel centres '
@@ -40,11 +40,12 @@ ASSUMPTIONS = ['oracle: aegmon/refs/render.py (Gaussian in the tangent plane of 
                'closed loop: all sources of a field share |peak|; rms = 0.02 |peak| and bkg = 0 are forced']
 MIN_REACH = {'AeRes:make_model': 1, 'AeRes:make_residual': 1, 'AeRes:load_sources': 1,
              'wcs_helpers:WCSHelper.sky2pix_ellipse': 1, 'fitting:elliptical_gaussian': 1,
-             'source_finder:SourceFinder.find_sources_in_image': 1}
+             'source_finder:SourceFinder.find_sources_in_image': 1, 'CLI.AeRes:main': 1}
 MIN_COUNTERS = {'sources_compared_with_render': 300, 'sources_in_last_half_pixel': 8, 'sources_off_image_checked': 30,
                 'sources_within_3px_of_edge': 30, 'additivity_comparisons': 10, 'mask_images': 6, 'files_checked': 12,
                 'restorations_checked': 3, 'closed_loop_fields': 4, 'closed_loop_sources_matched': 8,
-                'c16_contract_sky2pix_ellipse': 300}
+                'c16_contract_sky2pix_ellipse': 300, 'shared_shape_catalogues': 10, 'whole_models_compared_with_render': 10,
+                'mask_files_via_cli': 1}
 
 TOL_MODEL = 1e-4        # of |peak|, statement
 TOL_LOOP = 1e-3         # of |peak|, statement
@@ -86,9 +87,37 @@ def _header_params(rng, k, proj):
             'cdelt': [sg1 * scale / 3600.0, scale / 3600.0], 'shape': [rows, cols], 'use_cd': bool(k % 3 == 1)}
 
 
+HIGH_CRVALS = [(120.0, -82.0), (30.0, 84.0), (200.0, 85.0), (359.99, -80.0), (180.0, -30.0), (45.0, 0.0)]
+
+
+def _wide_header_params(rng, k, proj):
+    """fields whose farthest corner lies 0.4-0.5 deg from CRVAL (the full domain of the 1e-4 comparison), reference points
+    mostly at |dec| 80-85 where the direction of north turns by degrees across such a field"""
+    rows = int(rng.integers(160, 300))
+    cols = int(rng.integers(160, 300))
+    c1 = cols / 2.0 + 0.5 + float(rng.uniform(-0.1, 0.1)) * cols
+    c2 = rows / 2.0 + 0.5 + float(rng.uniform(-0.1, 0.1)) * rows
+    far = np.hypot(max(c1 - 0.5, cols + 0.5 - c1), max(c2 - 0.5, rows + 0.5 - c2))
+    scale = float(rng.uniform(0.8, 0.99)) * MAX_OFF_AXIS * 3600.0 / far
+    sg1 = 1.0 if k % 5 == 4 else -1.0
+    return {'proj': proj, 'crval': list(HIGH_CRVALS[k % len(HIGH_CRVALS)]), 'crpix': [float(c1), float(c2)],
+            'cdelt': [sg1 * scale / 3600.0, scale / 3600.0], 'shape': [rows, cols], 'use_cd': bool(k % 3 == 1)}
+
+
 def cases(seed, tier):
     out = []
     q = tier == 'quick'
+    # catalogues whose sources share one exact (a, b, pa): the beam (point sources), an elongated shape, two shapes mixed
+    ks = 0
+    for proj in wz.PROJECTIONS:
+        for shared in ('beam', 'elongated', 'two_shapes'):
+            for rep_ in range(1 if q else 4):
+                rng = rng_for(seed, 'c14shared', proj, shared, rep_)
+                c = {'kind': 'model', 'shared': shared, 'nsrc': int(rng.choice([2, 3, 6, 15, 40])),
+                     'seed': [seed, 'shared', proj, shared, rep_]}
+                c.update(_wide_header_params(rng, ks, proj))
+                out.append(c)
+                ks += 1
     # catalogue sizes: the small ones and one of 200
     nsrcs = [1, 2, 5, 12, 30, 60, 200] if q else [1, 2, 3, 5, 8, 12, 20, 30, 45, 60, 100, 200]
     reps = 1 if q else 6
@@ -120,6 +149,7 @@ def cases(seed, tier):
         for rep in range(1 if q else 6):
             rng = rng_for(seed, 'c14files', proj, rep)
             c = {'kind': 'files', 'fmt': fmts[(t + rep) % 3], 'nsrc': int(rng.integers(1, 20)),
+                 'sigma': [2.5, 4.0, 10.0, 25.0][(t + rep) % 4], 'mask_via_cli': bool((t + rep) % 2 == 1),
                  'seed': [seed, 'files', proj, rep]}
             c.update(_header_params(rng, k, proj))
             out.append(c)
@@ -176,7 +206,7 @@ def _position(rng, stratum, rows, cols):
     return i, j
 
 
-def _catalogue(rng, z, shape, scale_as, n, strata, positive=False, equal_peak=None):
+def _catalogue(rng, z, shape, scale_as, n, strata, positive=False, equal_peak=None, shapes=None):
     rows, cols = shape
     beam = 4.0 * scale_as                        # FWHM arcsec = 4 px
     out = []
@@ -195,9 +225,20 @@ def _catalogue(rng, z, shape, scale_as, n, strata, positive=False, equal_peak=No
         peak = float(10 ** rng.uniform(-2, 2)) * (1.0 if positive else float(rng.choice([-1.0, 1.0])))
         if equal_peak is not None:
             peak = equal_peak
-        out.append({'ra': float(ra), 'dec': float(dec), 'peak': peak, 'a': float(a), 'b': float(b), 'pa': _pa(rng),
+        pa = _pa(rng)
+        if shapes is not None and not (len(shapes) > 1 and k % 7 == 6):     # (two_shapes: every 7th keeps its own shape)
+            a, b, pa = shapes[k % len(shapes)]
+        out.append({'ra': float(ra), 'dec': float(dec), 'peak': peak, 'a': float(a), 'b': float(b), 'pa': pa,
                     'stratum': st})
     return out
+
+
+def _shared_shapes(rng, scale_as, which):
+    beam = 4.0 * scale_as
+    circ = (beam, beam * 0.8, 15.0)                                # the restoring beam of the header
+    a = beam * float(rng.uniform(3.0, 6.0))
+    elong = (a, max(a * float(rng.uniform(0.15, 0.4)), 3.06 * scale_as), float(-rng.uniform(-180, 180)))
+    return {'beam': [circ], 'elongated': [elong], 'two_shapes': [elong, circ]}[which]
 
 
 def _classify(z, shape, s):
@@ -304,6 +345,17 @@ def _run_model(case, o, rng, z, helper, shape, scale_as, AeRes, models):
                          'b': beam * 1.2, 'pa': 30.0 * len(srcs) - 170.0, 'stratum': st})
         srcs.append({'ra': (z.crval[0] + 180.0) % 360.0, 'dec': -z.crval[1], 'peak': 1.0, 'a': beam, 'b': beam, 'pa': 0.0,
                      'stratum': 'far'})
+    elif case.get('shared'):
+        # every source has exactly the same sky shape (float-identical); corners first so the field's full extent is used
+        shapes = _shared_shapes(rng, scale_as, case['shared'])
+        srcs = _catalogue(rng, z, shape, scale_as, case['nsrc'], ['interior', 'interior', 'edge3', 'interior', 'off', 'last_half'],
+                          shapes=shapes)
+        corners = [(4.0, 4.0), (rows - 5.0, cols - 5.0), (4.0, cols - 5.0), (rows - 5.0, 4.0)]
+        for s_, (ci, cj) in zip([t for t in srcs if t['stratum'] == 'interior'], corners):
+            ra, dec = z.index2sky(ci + float(rng.uniform(-0.5, 0.5)), cj + float(rng.uniform(-0.5, 0.5)))
+            s_['ra'], s_['dec'] = float(ra), float(dec)
+        o.count('shared_shape_catalogues')
+        o.count('shared_shape_sources', len(srcs))
     else:
         strata = ['interior', 'edge3', 'last_half', 'off', 'ring', 'interior', 'edge3', 'off', 'last_half', 'far']
         n = case['nsrc']
@@ -313,6 +365,9 @@ def _run_model(case, o, rng, z, helper, shape, scale_as, AeRes, models):
     comps = [_component(models, s, k) for k, s in enumerate(srcs)]
     singles = []
     nontriv = 0
+    ref_sum = np.zeros(shape)
+    tol_sum = np.zeros(shape)
+    whole_determined = True          # False when a source is neither clearly on nor clearly off, or outside the 1e-4 domain
     for k, (s, c) in enumerate(zip(srcs, comps)):
         cls, i, j = _classify(z, shape, s)
         m = _model_of(AeRes, o, [c], shape, helper, 'single source')
@@ -326,6 +381,7 @@ def _run_model(case, o, rng, z, helper, shape, scale_as, AeRes, models):
         wit = {'source': {kk: s[kk] for kk in ('ra', 'dec', 'peak', 'a', 'b', 'pa')}, 'index_ij': [i, j],
                'class': cls, 'header': _hdr_witness(case)}
         if cls == 'ring':
+            whole_determined = False
             o.count('ring_sources_not_judged')
             o.see('ring_source_modelled', bool(np.any(m != 0)))
             continue
@@ -351,8 +407,11 @@ def _run_model(case, o, rng, z, helper, shape, scale_as, AeRes, models):
                       _mech_dropped(i, j, shape))
             continue
         if off_axis > MAX_OFF_AXIS or s['b'] < 3.0 * scale_as:
+            whole_determined = False
             o.count('sources_outside_comparison_domain')
             continue
+        ref_sum += ref
+        tol_sum += np.where(ref != 0, TOL_MODEL, 4e-6) * abs(s['peak'])
         o.count('sources_compared_with_render')
         nontriv += 1
         err = np.abs(m.astype(float) - ref)
@@ -377,7 +436,27 @@ def _run_model(case, o, rng, z, helper, shape, scale_as, AeRes, models):
             sabs = np.abs(stack).sum(axis=0)
             ncontrib = (stack != 0).sum(axis=0)
             tol = (ncontrib + 2) * EPS32 * sabs + 1e-38
-            for name, other in (('split', ma.astype(float) + mb.astype(float)), ('singles', stack.sum(axis=0))):
+            others = [('split', ma.astype(float) + mb.astype(float)), ('singles', stack.sum(axis=0))]
+            rev = _model_of(AeRes, o, comps[::-1], shape, helper, 'reversed catalogue')
+            if rev is not None:
+                others.append(('reversed_order', rev.astype(float)))
+            if whole_determined and np.all(np.isfinite(whole)):
+                # the catalogue's model as a whole against the sum of the independent renderings
+                o.count('whole_models_compared_with_render')
+                o.n_eval += 1
+                errw = np.abs(whole.astype(float) - ref_sum)
+                ratio = float(np.max(errw / (tol_sum + 1e-38))) if tol_sum.any() else 0.0
+                o.worst('whole_model_vs_render_over_tolerance', ratio)
+                if case.get('shared'):
+                    o.worst('shared_shape_whole_model_vs_render_over_tolerance', ratio)
+                if not np.all(errw <= tol_sum + 1e-38):
+                    p = np.unravel_index(int(np.argmax(errw / (tol_sum + 1e-38))), errw.shape)
+                    o.violate('whole_model_vs_render', {'at_index': [int(p[0]), int(p[1])], 'model': float(whole[p]),
+                                                        'reference': float(ref_sum[p]), 'tolerance': float(tol_sum[p]),
+                                                        'n_sources': len(comps), 'shared_shape': case.get('shared'),
+                                                        'first_source': {kk: srcs[0][kk] for kk in ('ra', 'dec', 'peak', 'a', 'b', 'pa')},
+                                                        'header': _hdr_witness(case)})
+            for name, other in others:
                 o.count('additivity_comparisons')
                 o.n_eval += 1
                 err = np.abs(whole.astype(float) - other)
@@ -388,7 +467,8 @@ def _run_model(case, o, rng, z, helper, shape, scale_as, AeRes, models):
                     p = np.unravel_index(int(np.argmax(err / tol)), err.shape)
                     o.violate('additivity', {'against': name, 'at_index': [int(p[0]), int(p[1])], 'whole': float(whole[p]),
                                              'sum_of_parts': float(other[p]), 'tolerance': float(tol[p]),
-                                             'n_sources': len(comps), 'header': _hdr_witness(case)})
+                                             'n_sources': len(comps), 'shared_shape': case.get('shared'),
+                                             'header': _hdr_witness(case)})
     o.sample = {'n_sources': len(srcs), 'first_source': {k: v for k, v in srcs[0].items()},
                 'classes': [_classify(z, shape, s)[0] for s in srcs][:20],
                 'peak_pixel_first': None if singles[0] is None else float(np.max(np.abs(singles[0])))}
@@ -477,11 +557,42 @@ def _read(path):
         return np.array(h[0].data)
 
 
+def _cli_mask(o, wit, img, cat, rfile, sigma):
+    """the AeRes command line: --mask --sigma S with frac unset and the renamed columns"""
+    import logging
+    from AegeanTools.CLI import AeRes as cli
+    root = logging.getLogger()
+    level, handlers = root.level, list(root.handlers)
+    argv = ['-c', cat, '-f', img, '-r', rfile, '--mask', '--sigma', repr(sigma), '--racol', COLMAP['ra_col'],
+            '--deccol', COLMAP['dec_col'], '--peakcol', COLMAP['peak_col'], '--acol', COLMAP['a_col'],
+            '--bcol', COLMAP['b_col'], '--pacol', COLMAP['pa_col']]
+    o.count('mask_files_via_cli')
+    try:
+        rc = cli.main(argv)
+    except BaseException as e:
+        if isinstance(e, KeyboardInterrupt):
+            raise
+        o.n_eval += 1
+        o.violate('raises', dict(wit, where='CLI AeRes ' + ' '.join(argv[6:9]), exc=repr(e), tb=traceback.format_exc()[-800:]))
+        return False
+    finally:
+        root.setLevel(level)
+        for h in list(root.handlers):
+            if h not in handlers:
+                root.removeHandler(h)
+    if rc != 0 or not os.path.exists(rfile):
+        o.n_eval += 1
+        o.violate('no_output_file', dict(wit, where='CLI AeRes --mask --sigma', returncode=rc))
+        return False
+    return True
+
+
 def _run_files(case, o, rng, z, hdr, shape, scale_as, AeRes, tmp):
     from astropy.io import fits
     srcs = _mask_sources(rng, z, shape, scale_as, case['nsrc'])          # positive, no ring sources
     fmt = case['fmt']
-    sigma = 4.0
+    sigma = float(case.get('sigma', 4.0))
+    o.see('mask_sigma_through_make_residual', sigma)
     rms = [s['peak'] * float(rng.uniform(0.01, 0.5)) / sigma for s in srcs]
     cat = os.path.join(tmp, 'cat.' + fmt)
     _write_catalogue(cat, srcs, fmt, rms)
@@ -494,7 +605,8 @@ def _run_files(case, o, rng, z, hdr, shape, scale_as, AeRes, tmp):
     ref = np.sum(refs, axis=0) if refs else np.zeros(shape)
     tol_model = sum((TOL_MODEL * abs(s['peak'])) * (r != 0) + 4e-6 * abs(s['peak']) for (s, _), r in zip(inimg, refs)) \
         if refs else np.zeros(shape)
-    wit = {'fmt': fmt, 'colmap': COLMAP, 'n_sources': len(srcs), 'header': _hdr_witness(case)}
+    wit = {'fmt': fmt, 'colmap': COLMAP, 'n_sources': len(srcs), 'sigma': sigma, 'mask_via_cli': bool(case.get('mask_via_cli')),
+           'header': _hdr_witness(case)}
 
     def call(what, rfile, **kw):
         try:
@@ -551,6 +663,9 @@ def _run_files(case, o, rng, z, hdr, shape, scale_as, AeRes, tmp):
             frac = float(rng.choice([0.05, 0.25, 0.5]))
             thr = [frac * s['peak'] for s, _ in inimg]
             okc = call('mask frac', r_m, mask=True, frac=frac)
+        elif case.get('mask_via_cli'):
+            thr = [sigma * r for _, r in inimg]
+            okc = _cli_mask(o, wit, img, cat, r_m, sigma)
         else:
             thr = [sigma * r for _, r in inimg]
             okc = call('mask sigma', r_m, mask=True, sigma=sigma)
